@@ -73,6 +73,39 @@ macro_rules! bytes_view {
     };
 }
 bytes_view!(c17_bytes_view_2, 2, 5);
+
+/// byte view `len` and `get` only (every UTF-8 string <= 3 bytes)
+#[cfg_attr(kani, kani::proof)]
+#[cfg_attr(kani, kani::unwind(6))]
+pub fn c17_bytes_get_3() {
+    let b: Bytes<3> = Bytes::any();
+    if let Some(s) = b.as_str() {
+        let by = b.bytes();
+        let v = RotoString::from(s).bytes();
+        assert!(v.len() == by.len(), "byte length");
+        let i = any_index(4);
+        let g = v.get(i);
+        if i < by.len() && boundary(by, i) {
+            match g {
+                Some(c) => {
+                    let mut buf = [0u8; 4];
+                    let enc = c.encode_utf8(&mut buf).as_bytes();
+                    assert!(i + enc.len() <= by.len());
+                    let mut k = 0;
+                    while k < enc.len() {
+                        assert!(enc[k] == by[i + k], "get returned a different character");
+                        k += 1;
+                    }
+                    cover!(enc.len() == 3, "three_byte_char");
+                }
+                None => assert!(false, "get on a character boundary must return the character"),
+            }
+        } else {
+            assert!(g.is_none(), "get out of range / inside a character must be None");
+            cover!(i < by.len(), "mid_character");
+        }
+    }
+}
 bytes_view!(c17_bytes_view_3, 3, 6);
 
 /// reference: start offsets of the lines of `b` (a line ends at '\n' or at the
@@ -161,6 +194,7 @@ macro_rules! lines_get {
 lines_get!(c17_lines_get_2, 2, 6);
 
 crate::list![
+    c17_bytes_get_3,
     c17_bytes_view_2,
     c17_bytes_view_3,
     c17_lines_slice_2,
